@@ -261,6 +261,12 @@ def make_fuzz_engine(clauses, quick_runs, thorough_runs, quick_procs=8, thorough
             seen.add(key)
             fam_s = [s for s in sos if '/cut_S-' in s]; fam_r = [s for s in sos if '/cut_S-' not in s]
             use = fam_s if (case['clause'].startswith('C07.entry') and fam_s) else (fam_r or sos)
+            # minimise through the ordinary path first (integer shrinker, step deletion for histories)
+            rmin = subprocess.run([env['exe'], 'minimize', case['clause'], '--args', ','.join(str(x) for x in case['args']), '--kf', env['kf_txt']] + use, stdout=subprocess.PIPE, stderr=subprocess.DEVNULL, text=True)
+            try:
+                margs = json.loads(rmin.stdout.strip().splitlines()[-1])
+                if isinstance(margs, list) and margs: case['args'] = margs
+            except Exception: pass
             ok3 = True; outp = ''
             for _ in range(3):
                 rc_, outp = verif.do_replay(env['exe'], case['clause'], case['args'], use, env['kf_txt'])
